@@ -3,7 +3,7 @@
 //! harness is an ordinary `pub fn` so that `bin/check replay` can run it
 //! natively on the values of a solver counterexample (see `sym`).
 #![recursion_limit = "512"]
-#![cfg_attr(kani, feature(core_io_borrowed_buf, read_buf, core_io))]
+#![cfg_attr(kani, feature(core_io_borrowed_buf, read_buf, core_io, allocator_api))]
 #![allow(dead_code, unused_imports, unused_variables, unused_mut, clippy::all)]
 
 pub mod env;
